@@ -112,6 +112,23 @@ def TC.elements (s : TC K) : List K := s.cm.flatMap fun e => List.replicate e.cn
 def TC.commonCount (s : TC K) : Nat := (s.cm.map (·.cnt)).sum
 def TC.uncommonCount (s : TC K) : Nat := s.total - s.commonCount
 
+/-- `get_commonality()`: `float(common) / total` as the exact ratio (numerator, denominator);
+    `none` = the division by zero on a counter nothing was added to (behaviour outside the statement) -/
+def TC.commonality (s : TC K) : Option (Nat × Nat) :=
+  if s.total = 0 then none else some (s.commonCount, s.total)
+
+/-- ghost: the counts the compaction inside `add k` throws away (0 when `add k` does not compact);
+    never computed by the code - `get_uncommon_count()` is documented as their sum -/
+def TC.culledBy (s : TC K) (k : K) : Nat :=
+  if (s.total + 1) % s.w = 0 then
+    (((upsert k s.bucket s.cm).filter (fun e => !(decide (e.cnt + e.dlt > s.bucket)))).map (·.cnt)).sum
+  else 0
+
+/-- ghost: everything culled while the additions `ks` are applied to `s` -/
+def culled (s : TC K) : List K → Nat
+  | [] => 0
+  | k :: ks => s.culledBy k + culled (s.add k) ks
+
 /-- `self.update(other)` with another ThresholdCounter: `other.items()` is the mapping
     (`other` may be `self`: `items()` returns a list, i.e. a snapshot) -/
 def TC.absorb (s src : TC K) : TC K := s.step (.updateMap src.items)
